@@ -621,6 +621,17 @@ void f_or_eq () {
 
 
 /**
+ * Position of a range bound counted from the end (`<i`) in a value of len elements.
+ * len - i overflows for i near INT64_MIN; every position beyond the end selects the same
+ * elements, so the result saturates instead of wrapping around into the value.
+ */
+static int64_t range_from_end (int64_t len, int64_t i) {
+  if (i < len - INT64_MAX)
+    return INT64_MAX;
+  return len - i;
+}
+
+/**
  * Array, String, or Buffer range operator [from .. to]
  */
 void f_range (int code) {
@@ -640,7 +651,7 @@ void f_range (int code) {
         len = (int64_t)SVALUE_STRLEN (sp);
         to = (--sp)->u.number;
         if (code & 0x01)
-          to = len - to;
+          to = range_from_end (len, to);
 #ifdef OLD_RANGE_BEHAVIOR
         /* the `<' is applied first (docs; same as buffers and f_extract_range) */
         if (to < 0)
@@ -648,7 +659,7 @@ void f_range (int code) {
 #endif
         from = (--sp)->u.number;
         if (code & 0x10)
-          from = len - from;
+          from = range_from_end (len, from);
 #ifdef OLD_RANGE_BEHAVIOR
         if (from < 0)
           from += len;
@@ -687,14 +698,14 @@ void f_range (int code) {
         len = rbuf->size;
         to = (--sp)->u.number;
         if (code & 0x01)
-          to = len - to;
+          to = range_from_end (len, to);
 #ifdef OLD_RANGE_BEHAVIOR
         if (to < 0)
           to += len;
 #endif
         from = (--sp)->u.number;
         if (code & 0x10)
-          from = len - from;
+          from = range_from_end (len, from);
 #ifdef OLD_RANGE_BEHAVIOR
         if (from < 0)
           {
@@ -727,10 +738,10 @@ void f_range (int code) {
         array_t *v = sp->u.arr;
         to = (--sp)->u.number;
         if (code & 0x01)
-          to = v->size - to;
+          to = range_from_end (v->size, to);
         from = (--sp)->u.number;
         if (code & 0x10)
-          from = v->size - from;
+          from = range_from_end (v->size, from);
         /* clamp while still 64 bits wide; slice_array takes ints */
         if (from < 0)
           from = 0;
@@ -768,7 +779,7 @@ void f_extract_range (int code) {
         len = (int64_t)SVALUE_STRLEN (sp);
         from = (--sp)->u.number;
         if (code)
-          from = len - from;
+          from = range_from_end (len, from);
 #ifdef OLD_RANGE_BEHAVIOR
         if (from < 0)
           {
@@ -799,7 +810,7 @@ void f_extract_range (int code) {
         len = rbuf->size;
         from = (--sp)->u.number;
         if (code)
-          from = len - from;
+          from = range_from_end (len, from);
 #ifdef OLD_RANGE_BEHAVIOR
         if (from < 0)
           {
@@ -824,7 +835,7 @@ void f_extract_range (int code) {
         array_t *v = sp->u.arr;
         from = (--sp)->u.number;
         if (code)
-          from = v->size - from;
+          from = range_from_end (v->size, from);
         /* clamp while still 64 bits wide; slice_array takes ints */
         if (from < 0)
           from = 0;
